@@ -1,7 +1,7 @@
 SPECIFICATION Spec
 CONSTANTS MaxHist = 3
   CfgIds = {1, 2, 3, 4}
-  DeepCfgIds = {1, 2}
-  StmtAct = TRUE
+  DeepCfgIds = {1}
+  StmtAct = FALSE
 INVARIANTS TypeOK ResetRestores Laws
 PROPERTY Untouched
